@@ -20,7 +20,10 @@ EXPLANATION = (
     "optimize policy, and invalidated with them; R09.5 WHO: the package's process-wide mutable state (module-level containers, "
     "lru_cache/cache memoised functions, class-level containers) is the frozen, reviewed inventory - each entry with the "
     "functions allowed to write it - and memoised functions read no configuration; R09.6 lists every configuration read site "
-    "(informational). "
+    "(informational); R09.7 decides one clause of the configuration sentence: a node never reads the same configuration key live both "
+    "when it advertises its layout (chunks) and when it lowers - the two decisions are taken under one per-node captured setting "
+    "(`with config.set(self.<cached property>)`), otherwise the advertised and the actual block structure diverge when an option "
+    "changes between construction and graph building (this was genuine on the pinned tree: a tree reduction over such a node returned a partial sum; repaired). "
     "The second sentence of C09 (same VALUES under every array.* setting) is an information-flow claim over integer planning "
     "code and is not decided; all configuration read sites are listed in the evidence."
 )
@@ -426,6 +429,120 @@ def lowering_config_rule(ctx, rule_id="R09.6"):
     return rr
 
 
+def _dict_keys_of(repo, expr, f: FuncInfo):
+    """Literal string keys of the mapping ``expr`` denotes: a dict display, or ``self.<member>`` whose
+    (cached) property body returns a dict display."""
+    if isinstance(expr, ast.Dict):
+        ks = [const_value(k) for k in expr.keys if k is not None]
+        return {k for k in ks if isinstance(k, str)}
+    if isinstance(expr, ast.Attribute) and isinstance(expr.value, ast.Name) and expr.value.id == "self":
+        owner = f.cls or (f.parent.cls if f.parent else None)
+        if owner is None:
+            return set()
+        hit = repo.class_attr(owner, expr.attr)
+        if hit and isinstance(hit[1], FuncInfo):
+            out = set()
+            for n in body_walk(hit[1].node):
+                if isinstance(n, ast.Return) and n.value is not None:
+                    out |= _dict_keys_of(repo, n.value, hit[1])
+            return out
+    return set()
+
+
+def _pin_is_per_node(repo, expr, f: FuncInfo):
+    """The pinned mapping is captured once per node (a cached property of self), not re-read."""
+    if isinstance(expr, ast.Attribute) and isinstance(expr.value, ast.Name) and expr.value.id == "self":
+        owner = f.cls or (f.parent.cls if f.parent else None)
+        hit = repo.class_attr(owner, expr.attr) if owner else None
+        return bool(hit and isinstance(hit[1], FuncInfo) and hit[1].kind == "cached_property")
+    return False
+
+
+def _with_pins(repo, f: FuncInfo):
+    """[(set of node ids inside the with body, pinned keys)] for ``with config.set(<per-node mapping>)`` blocks of f."""
+    out = []
+    for n in body_walk(f.node):
+        if isinstance(n, (ast.With, ast.AsyncWith)):
+            keys = set()
+            for it in n.items:
+                c = it.context_expr
+                if isinstance(c, ast.Call) and (dotted(c.func) or "").endswith("config.set") and c.args and _pin_is_per_node(repo, c.args[0], f):
+                    keys |= _dict_keys_of(repo, c.args[0], f)
+            if keys:
+                ids = {id(x) for b in n.body for x in ast.walk(b)}
+                out.append((ids, keys))
+    return out
+
+
+def live_config_reads(ctx, root: FuncInfo, skip_cached_props=True, max_depth=6):
+    """{key: (function, node, path)} configuration keys read on resolved call paths from ``root`` that are
+    NOT under a per-node ``with config.set(self.<cached property>)`` pin; cached properties of the node
+    (per-node captures) are not entered."""
+    repo = ctx.repo
+    cg = callgraph(ctx)
+    live = {}
+    pinned_seen = {}
+    seen = set()
+    work = [(root, frozenset(), (root.fq,))]
+    while work:
+        g, pins, path = work.pop()
+        if (g.fq, pins) in seen or len(path) > max_depth:
+            continue
+        seen.add((g.fq, pins))
+        wp = _with_pins(repo, g)
+        for node, key in _config_reads(g):
+            here = set(pins)
+            for ids, keys in wp:
+                if id(node) in ids:
+                    here |= keys
+            if key in here:
+                pinned_seen.setdefault(key, (g, node, path))
+            else:
+                live.setdefault(key, (g, node, path))
+        for e in cg.edges.get(g.fq, []):
+            if not e.exact or e.kind not in ("call", "prop", "construct"):
+                continue
+            t = e.target
+            if t.name in ("_lower", "lower_once", "_materialize", "simplify", "optimize", "lower_completely") and t is not root:
+                continue
+            if skip_cached_props and t.kind == "cached_property" and t is not root:
+                continue
+            here = set(pins)
+            for ids, keys in wp:
+                if id(e.node) in ids:
+                    here |= keys
+            work.append((t, frozenset(here), path + (t.fq,)))
+    return live, pinned_seen
+
+
+def r09_7(ctx):
+    rr = RuleResult("R09.7", "COVER", "a node's advertised layout (chunks) and its lowering never read the same configuration key live: both decide under one per-node captured setting", min_instances=10)
+    repo = ctx.repo
+    for c in repo.expr_classes():
+        lo = repo.class_attr(c, "_lower")
+        ch = repo.class_attr(c, "chunks")
+        if not lo or not ch or not isinstance(lo[1], FuncInfo) or not isinstance(ch[1], FuncInfo):
+            continue
+        if not lo[0].module.is_unit or not ch[0].module.is_unit:
+            continue
+        low_live, low_pin = live_config_reads(ctx, lo[1])
+        adv_live, adv_pin = live_config_reads(ctx, ch[1])
+        if not (low_live or low_pin or adv_live or adv_pin):
+            continue
+        rr.inst(c.construct, lower=f"{lo[0].name}._lower", chunks=f"{ch[0].name}.chunks", lower_live=sorted(low_live), lower_pinned=sorted(low_pin), chunks_live=sorted(adv_live), chunks_pinned=sorted(adv_pin))
+        clash = (set(low_live) & (set(adv_live) | set(adv_pin))) | (set(adv_live) & set(low_pin))
+        for k in sorted(clash):
+            g, node, path = low_live.get(k) or adv_live.get(k)
+            ctx.finding(
+                rr, f"{c.construct}::{k}",
+                f"{c.name} reads configuration {k!r} both when advertising its layout ({ch[0].name}.chunks) and when lowering ({lo[0].name}._lower), and not under one per-node captured "
+                f"setting: if the option changes between construction and graph building the node advertises one block structure and becomes another, and consumers that planned "
+                f"from the advertised structure (tree reductions, per-block literals) compute wrong values",
+                func=g, node=node, path=list(path),
+            )
+    return rr
+
+
 def r09_6(ctx):
     """Informational inventory of every configuration read site (nothing is judged: the configuration clause is not decided)."""
     rr = RuleResult("R09.6", "INFO", "inventory of configuration read sites (listed, not judged)", min_instances=15)
@@ -435,7 +552,7 @@ def r09_6(ctx):
     return rr
 
 
-RULES = [r09_1, r09_2, r09_3, r09_4, r09_5, r09_6]
+RULES = [r09_1, r09_2, r09_3, r09_4, r09_5, r09_6, r09_7]
 
 LEVEL_TEXT = (
     "Static decision of the history clause of C09: who-may-touch the process-wide lowering cache and under which key, a "
